@@ -189,7 +189,7 @@ pub fn op_strategy(w: &Weights) -> BoxedStrategy<Op> {
         ));
         v.push((
             w.rogue_msg,
-            (m, 0u8..4, 0u8..4, any::<u16>(), 0u8..3)
+            (m, 0u8..4, 0u8..4, any::<u16>(), prop_oneof![3 => 0u8..3, 1 => 3u8..12])
                 .prop_map(|(m, pubkey_sel, id_sel, sel, kind)| Op::RogueMsg { m, pubkey_sel, id_sel, sel, kind })
                 .boxed(),
         ));
